@@ -188,6 +188,9 @@ def d_qq(ctx, rng, ds, paths, kind):
             continue
         gx, gy = fig.xy(ls[0])
         p = pairs(ds, k)
+        if not p:
+            # no valid pair: verif plots one NaN point, which draws nothing
+            gx, gy = [v for v in gx if v == v], [v for v in gy if v == v]
         compare_series(ctx, "qq", "x = sorted obs input %d" % k, gx, sorted(a for a, b in p), case)
         compare_series(ctx, "qq", "y = sorted fcst input %d" % k, gy, sorted(b for a, b in p), case)
         distinct = max(distinct, len(set(gy)))
@@ -210,6 +213,8 @@ def d_scatter(ctx, rng, ds, paths, kind):
         p = pairs(ds, k)
         got = sorted(zip(gx, gy))
         want = sorted(p)
+        if not want:
+            got = [g for g in got if g[0] == g[0] and g[1] == g[1]]     # a NaN point draws nothing
         ctx.count("series_compared")
         ctx.count("points_compared", len(want))
         if len(got) != len(want) or any(not (vutil.num_equal(a[0], b[0]) and vutil.num_equal(a[1], b[1])) for a, b in zip(got, want)):
